@@ -592,6 +592,10 @@ def _buf_history(rng):
             else:
                 x = rng.randrange(3)        # the same element pushed again must come out again
             c.append("%s %d %d" % ("push" if rng.chance(0.5) else "pushm", p, x))
+        elif r < 0.56:
+            # a push during which the next allocation fails (bad_alloc): nothing may change, size()/empty() included
+            c.append("push_fail %d %d" % (rng.randrange(4), 90 + rng.randrange(5)))
+            c.append(rng.pick(["size", "empty", "size"]))
         elif r < 0.70:
             c.append("consume")
         elif r < 0.86:
@@ -606,7 +610,12 @@ def _val_history(rng):
     c = ["tv_new %s %s" % (rng.pick(KINDS), "-" if rng.chance(0.3) else str(rng.randrange(0, 9)))]
     for _ in range(rng.randint(3, 30)):
         r = rng.random()
-        if r < 0.35:
+        if r < 0.06:
+            c.append("assignz")
+        elif r < 0.12 and len(c) > 1 and c[-1].startswith("update"):
+            prev = [l for l in c if l.startswith("assign ")]
+            c.append(prev[-1] if prev else "assign 3")       # the same value again, after a hand-over
+        elif r < 0.35:
             c.append("assign %d" % rng.randrange(1, 9))
         elif r < 0.65:
             c.append("update")
@@ -649,7 +658,7 @@ def nontrivial(case):
     pushes = 0
     for l in case:
         w = l.split()[0]
-        if w in ("push", "pushm", "assign"):
+        if w in ("push", "pushm", "assign", "assignz"):
             pushes += 1
         elif w in ("consume", "update") and pushes >= 2:
             return True
